@@ -79,6 +79,16 @@ inductive Ev where
   | unknown
 deriving Repr
 
+/-- Private state of an update processor (an arbitrary finite table; the conflict-resolving cache uses
+name ↦ (v1 index, revision)). -/
+abbrev PState := List (Nat × Nat × Nat)
+
+/-- A `SyncerUpdateProcessor`: `OnSyncerStarting` resets the state to `[]`; `Process` is a function of the
+state since the last reset and the KV, returning the new state, the converted KVs and whether it also
+returned an error. -/
+structure Proc where
+  process : PState → KV → PState × List KV × Bool
+
 structure WC where
   res : List (Nat × Nat)
   old : Option (List (Nat × Nat))
@@ -90,24 +100,83 @@ structure WC where
   watchPolling : Bool
   connected : Bool
   sendDeletesOnConnFail : Bool
-  /-- 0 = no UpdateProcessor, 1 = the harness's fan-out processor -/
-  procMode : Nat
+  /-- `resourceType.UpdateProcessor` (none = nil) -/
+  proc : Option Proc
+  /-- the processor's private state since its last `OnSyncerStarting` -/
+  pst : PState
+  /-- number of `OnSyncerStarting` calls made during the current call -/
+  resets : Nat
   /-- results emitted so far by the current call (oldest first) -/
   out : List Res
-deriving Repr
 
 /-- `newWatcherCache`. -/
-def WC.new (procMode : Nat) (sendDeletes : Bool) : WC :=
+def WC.new (proc : Option Proc) (sendDeletes : Bool) : WC :=
   { res := [], old := none, rev := 0, errCount := 0, status := stWait, crdInstalled := true,
     listPolling := false, watchPolling := false, connected := false,
-    sendDeletesOnConnFail := sendDeletes, procMode := procMode, out := [] }
+    sendDeletesOnConnFail := sendDeletes, proc := proc, pst := [], resets := 0, out := [] }
 
-/-- The harness's UpdateProcessor (mode 1): fan-out to two keys, the second one filtered to a deletion
+/-- The harness's stateless UpdateProcessor (mode 1): fan-out to two keys, the second one filtered to a deletion
 for odd revisions; revisions divisible by 5 fail conversion (a deletion and an error). -/
 def conv1 (kv : KV) : List KV × Bool :=
   if kv.rev % 5 = 0 then ([{ key := kv.key + 100, rev := kv.rev, del := true }], true)
   else ([{ key := kv.key + 100, rev := kv.rev, del := kv.del },
          { key := kv.key + 200, rev := kv.rev, del := kv.del || kv.rev % 2 = 1 }], false)
+
+def proc1 : Proc := { process := fun st kv => (st, (conv1 kv).1, (conv1 kv).2) }
+
+/-! Mode 2: `updateprocessors.NewConflictResolvingCacheUpdateProcessor` (as used for IPPools): v3 resources
+indexed by name, v1 key derived from the value (here: `rev % 3`, the harness puts the CIDR accordingly); only the
+resource with the lowest name of each v1 key is synced. -/
+
+def crLookup (st : PState) (name : Nat) : Option (Nat × Nat) := (st.find? (fun e => e.1 == name)).map (·.2)
+def crErase (st : PState) (name : Nat) : PState := st.filter (fun e => e.1 != name)
+
+def insertSortedN (k : Nat) : List Nat → List Nat
+  | [] => [k]
+  | x :: xs => if k ≤ x then k :: x :: xs else x :: insertSortedN k xs
+
+/-- `orderedNamesByV1Key[v1Key]`. -/
+def crNames (st : PState) (g : Nat) : List Nat :=
+  ((st.filter (fun e => e.2.1 == g)).map (·.1)).foldr insertSortedN []
+
+/-- `conflictResolvingCache.delete(name)`. -/
+def crDelete (st : PState) (name : Nat) : PState × List KV × Bool :=
+  match crLookup st name with
+  | none => (st, [], true)
+  | some (g, _) =>
+    let cns := crNames st g
+    let resp : List KV :=
+      if cns.head? == some name then
+        match cns.tail with
+        | [] => [{ key := 300 + g, rev := 0, del := true }]
+        | n2 :: _ =>
+          match crLookup st n2 with
+          | some (_, r2) => [{ key := 300 + g, rev := r2, del := false }]
+          | none => []
+      else []
+    (crErase st name, resp, false)
+
+/-- `conflictResolvingCache.Process(kvp)` (conversion itself never fails in the harness). -/
+def crProcess (st : PState) (kv : KV) : PState × List KV × Bool :=
+  if kv.del then crDelete st kv.key
+  else
+    let g := kv.rev % 3
+    let d : PState × List KV :=
+      match crLookup st kv.key with
+      | some (g0, _) => if g0 != g then ((crDelete st kv.key).1, (crDelete st kv.key).2.1) else (st, [])
+      | none => (st, [])
+    let st2 : PState := (kv.key, g, kv.rev) :: crErase d.1 kv.key
+    let cns := crNames st2 g
+    let resp := if cns.head? == some kv.key then d.2 ++ [{ key := 300 + g, rev := kv.rev, del := false }] else d.2
+    (st2, resp, false)
+
+def proc2 : Proc := { process := crProcess }
+
+/-- The processors the driver / harness use. -/
+def procOf : Nat → Option Proc
+  | 0 => none
+  | 1 => some proc1
+  | _ => some proc2
 
 def lookup (m : List (Nat × Nat)) (k : Nat) : Option Nat := (m.find? (fun p => p.1 == k)).map (·.2)
 def erase (m : List (Nat × Nat)) (k : Nat) : List (Nat × Nat) := m.filter (fun p => p.1 != k)
@@ -159,14 +228,24 @@ def WC.handleDeleted (wc : WC) (k : Nat) : WC :=
 def WC.handleConverted (wc : WC) (kv : KV) : WC :=
   if kv.del then wc.handleDeleted kv.key else wc.handleAddMod kv
 
+/-- `UpdateProcessor.Process(kvp)` (identity when there is no processor). -/
+def procRun (p : Option Proc) (st : PState) (kv : KV) : PState × List KV × Bool :=
+  match p with
+  | none => (st, [kv], false)
+  | some P => P.process st kv
+
 /-- `handleWatchListEvent`. -/
 def WC.handleWatchListEvent (wc : WC) (kv : KV) : WC :=
   let wc := { wc with rev := kv.rev, errCount := 0 }
-  if wc.procMode = 0 then wc.handleConverted kv
-  else
-    let c := conv1 kv
-    let wc := c.1.foldl WC.handleConverted wc
-    if c.2 then wc.send .convErr else wc
+  let r := procRun wc.proc wc.pst kv
+  let wc := { wc with pst := r.1 }
+  let wc := r.2.1.foldl WC.handleConverted wc
+  if r.2.2 then wc.send .convErr else wc
+
+/-- "Notify the converter that we are resyncing": `UpdateProcessor.OnSyncerStarting()`, called before EVERY List
+of a full resync (each iteration of the loop that has `performFullResync` set). -/
+def WC.notifyConverter (wc : WC) : WC :=
+  { wc with pst := [], resets := if wc.proc.isSome then wc.resets + 1 else wc.resets }
 
 /-- "If the current status is WaitForDatastore, ensure that we transition to ResyncInProgress." -/
 def WC.leaveWait (wc : WC) : WC := if wc.status = stWait then wc.send (.status stResync) else wc
@@ -234,7 +313,7 @@ def WC.processList (wc : WC) (kvs : List KV) : WC :=
 /-- The full-resync part of one loop iteration for the List outcome `lo`:
 (new state, `performFullResync`, fall through to the Watch call?). -/
 def listStep (wc : WC) (lo : ListOut) : WC × Bool × Bool :=
-  let wc := wc.beginFull
+  let wc := wc.beginFull.notifyConverter
   match lo with
   | .notFound => (wc.onListNotFound, true, false)
   | .expired => (wc.onListExpired, true, false)
@@ -294,7 +373,7 @@ def eventLoop : WC → List Ev → WC
 
 /-- One call of `resyncAndLoopReadingFromWatcher` with the scripted outcomes. -/
 def runCall (wc : WC) (lists : List ListOut) (watches : List WatchOut) (fin : List KV × Nat) (evs : List Ev) : WC :=
-  let wc := { wc with out := [] }
+  let wc := { wc with out := [], resets := 0 }
   let wc := (resyncLoop fin (lists.length + watches.length + 2) wc false lists watches).getD wc
   eventLoop wc evs
 
